@@ -1,0 +1,82 @@
+//go:build verif
+
+package secec
+
+// Ghost lemma functions for the verifier in /verif: never called and never built without the `verif` tag.
+// Each one composes real API calls; its contract (verif_contracts.go) states that it returns true, so the
+// verifier has to derive the composition from the contracts of the functions called.
+
+import (
+	"io"
+
+	"gitlab.com/yawning/secp256k1-voi"
+)
+
+// A signature made by SignRaw verifies under the signer's public key.
+func verifLemmaSignRawVerifies(k *PrivateKey, rand io.Reader, digest []byte) bool {
+	r, s, _, err := k.SignRaw(rand, digest)
+	if err != nil {
+		return true
+	}
+	return k.PublicKey().VerifyRaw(digest, r, s)
+}
+
+// The recovery id returned by SignRaw recovers exactly the signer's public key.
+func verifLemmaSignRawRecovers(k *PrivateKey, rand io.Reader, digest []byte) bool {
+	r, s, v, err := k.SignRaw(rand, digest)
+	if err != nil {
+		return true
+	}
+	q, err := RecoverPublicKey(digest, r, s, v)
+	if err != nil {
+		return false
+	}
+	return q.Equal(k.PublicKey())
+}
+
+// Whatever Sign emits is accepted by Verify with the same options, even when malleable
+// signatures are rejected.
+func verifLemmaSignVerifies(k *PrivateKey, rand io.Reader, digest []byte, opts *ECDSAOptions) bool {
+	var vo *ECDSAOptions
+	var so *ECDSAOptions
+	if opts != nil {
+		so = &ECDSAOptions{Hash: opts.Hash, Encoding: opts.Encoding, SelfVerify: opts.SelfVerify}
+		vo = &ECDSAOptions{Hash: opts.Hash, Encoding: opts.Encoding, RejectMalleable: true}
+	}
+	var sig []byte
+	var err error
+	if so != nil {
+		sig, err = k.Sign(rand, digest, so)
+	} else {
+		sig, err = k.Sign(rand, digest, nil)
+	}
+	if err != nil {
+		return true
+	}
+	return k.PublicKey().Verify(digest, sig, vo)
+}
+
+// The compact encodings parse back to the scalars and recovery id they were built from.
+func verifLemmaCompactRoundTrip(r, s *secp256k1.Scalar, v byte) bool {
+	b := BuildCompactRecoverableSignature(r, s, v)
+	r2, s2, v2, err := ParseCompactRecoverableSignature(b)
+	if err != nil {
+		return false
+	}
+	c := BuildCompactSignature(r, s)
+	r3, s3, err := ParseCompactSignature(c)
+	if err != nil {
+		return false
+	}
+	return r2.Equal(r) == 1 && s2.Equal(s) == 1 && v2 == v && r3.Equal(r) == 1 && s3.Equal(s) == 1
+}
+
+// The ASN.1 encoding parses back to the scalars it was built from.
+func verifLemmaASN1RoundTrip(r, s *secp256k1.Scalar) bool {
+	b := BuildASN1Signature(r, s)
+	r2, s2, err := ParseASN1Signature(b)
+	if err != nil {
+		return false
+	}
+	return r2.Equal(r) == 1 && s2.Equal(s) == 1
+}
